@@ -945,7 +945,10 @@ func TestVerif_C02(t *testing.T) {
 	r.Assume("map-iteration order inside the VM/natives is explored by C15 (nd engine), not here; here each block is executed twice on V")
 
 	var rc c02case
-	if r.ReplayCase(&rc) && len(rc.Blocks) > 0 {
+	if r.IsReplay() {
+		if !r.ReplayCase(&rc) || len(rc.Blocks) == 0 {
+			return // a case of another unit of this check (crashrestart)
+		}
 		tr := c02open(r, e)
 		defer tr.close()
 		var seqs [][]*c02tx
